@@ -419,6 +419,7 @@ func (s *session) setRoute(m string) {
 	ctx := s.r.Ctx
 	g := s.d.g
 	// back to the healthy state first
+	tunnelkeeper.VerifRouteHook = nil
 	app.BandtssKeeper.SetCurrentGroup(ctx, bandtsstypes.NewCurrentGroup(g.ID, s.w.Cfg.GenesisTime))
 	tp := app.TSSKeeper.GetParams(ctx)
 	if tp.MaxSigningAttempt != 5 {
@@ -469,6 +470,9 @@ func (s *session) setRoute(m string) {
 		// signing record was written in the cache context
 		tp.MaxSigningAttempt = 0
 		must(app.TSSKeeper.SetParams(ctx, tp))
+	case "panic":
+		// fault injection (x/tunnel/keeper/verif_hook.go): the route of every tunnel panics when a packet is handed to it
+		tunnelkeeper.VerifRouteHook = func(sdk.Context, uint64) { panic("verif: injected route panic") }
 	default:
 		panic("unknown route mode " + m)
 	}
@@ -492,6 +496,7 @@ func (d *Driver) RunScript(sc tf.Script) {
 	w := d.w
 	ctx, _ := d.fb.Ctx.CacheContext()
 	r := &world.Run{W: w, Ctx: ctx, Height: d.fb.Height, Time: d.fb.Time, InBlock: true}
+	tunnelkeeper.VerifRouteHook = nil
 	s := &session{d: d, w: w, r: r, mode: "ok", drained: map[int]bool{}, inactive: map[int]bool{}, poolOff: map[int]int{}, c: sc.C}
 	app := w.App
 
@@ -784,7 +789,7 @@ func RandomScript(rng *rand.Rand) tf.Script {
 		steps = append(steps, tf.M{"e": "Fund", "t": t, "x": pick(rng, []int{7, 14, 21, 30, 6, 3})})
 		steps = append(steps, tf.M{"e": "Activate", "t": t, "who": tf.M{"role": "creator", "t": t}})
 	}
-	modes := []string{"ok", "ok", "ok", "noGroup", "noNonces", "inactive", "maxAtt0"}
+	modes := []string{"ok", "ok", "ok", "noGroup", "noNonces", "inactive", "maxAtt0", "panic"}
 	n := 14 + rng.Intn(22)
 	for i := 0; i < n; i++ {
 		t := 1 + rng.Intn(ntun)
